@@ -958,7 +958,8 @@ def call_plan(r, spec, codec):
             inp = m["input"].lstrip(".")
             req = rpc.rand_msg(r, codec, inp, p_set=0.7)
             call = {"fqn": fq, "input": inp, "request_b64": codec.encode_b64(inp, req), "consume": "value", "path": path,
-                    "literal": {"name": r.pick(["shelves/s1", "x", "projects/p/things/t"])},
+                    "literal": ({"name": r.pick(["shelves/s1", "x", "projects/p/things/t"])}
+                                if any(fd.name == "name" for fd in codec.pool.FindMessageTypeByName(inp).fields) else {}),
                     "http_path": f"/v1/{s['name'].lower()}/{m['name']}"}
             out = m["output"].lstrip(".")
             if m.get("lro"):
